@@ -24,7 +24,7 @@ from fractions import Fraction
 
 from .. import astutil as A
 from .. import runoff
-from ..alg import Interp, Obj, Poly, PyFunc, Undecided, fn, same_value, to_poly
+from ..alg import FragmentFault, Interp, Obj, Poly, PyFunc, Undecided, fn, same_value, to_poly
 from .. import listnp
 from ..dep import Deps
 
@@ -479,6 +479,8 @@ def _staterror_widths(ctx, rid, repo):
             ctx.violated(rid, fin, "staterror zero width", "a staterror bin with zero uncertainty is not held fixed with a unit width (or its width picks up samples that do not carry the modifier)", expected="sigmas=[1] fixed=[True]", found=f"sigmas={[str(to_poly(x)) for x in pz['sigmas']]} fixed={list(pz['fixed'])}")
     except RaisedInFragment as e:
         ctx.violated(rid, fin, "staterror builder", f"a well-formed specification is refused with {e.exc_name}")
+    except FragmentFault as e:
+        ctx.violated(rid, fin, "staterror builder", f"on a well-formed configuration the code indexes outside its own tensors: {e}")
     except (Undecided, KeyError, TypeError, ValueError, IndexError, AttributeError) as e:
         ctx.unrecognised(rid, fin, "staterror builder", f"not interpretable: {type(e).__name__}: {e}")
 
@@ -542,6 +544,8 @@ def _constraint_tables(ctx, rid, repo):
                     ctx.holds(rid, site, f"constrained names {want_names}; data indices {want_data}; {tab_attr} {want_tab} x {want_rows} row(s); parameter indices in the same order")
                 else:
                     ctx.violated(rid, init, f"{cname} tables [batch_size={bs}]", f"the constant tables of the {kind} constraint do not pair each constrained parameter with its own auxiliary-data position and its own " + ("width (parset.sigmas, else 1)" if kind == "normal" else "rate factor (parset.factors, not the auxiliary data, which a measurement may override)"), expected=f"names={want_names} data={want_data} {tab_attr}={[want_tab] * want_rows} access={want_acc}", found=f"names={seen.get('names')} data={got_data} {tab_attr}={got_tab} access={got_acc}")
+            except FragmentFault as e:
+                ctx.violated(rid, init, f"{cname}.__init__ [batch_size={bs}]", f"on a well-formed configuration the code indexes outside its own tensors: {e}")
             except (Undecided, KeyError, TypeError, ValueError, IndexError, AttributeError) as e:
                 ctx.unrecognised(rid, init, f"{cname}.__init__ [batch_size={bs}]", f"not interpretable: {type(e).__name__}: {e}")
 
@@ -620,5 +624,7 @@ def _constraint_template(ctx, rid, repo):
                 ctx.holds(rid, site, f"{want[0]}")
             else:
                 ctx.violated(rid, cmc.methods["logpdf"], f"constraint log-density [batch_size={bs}]", "the constraint log-density is not the HistFactory template: one Normal(aux_k | theta_k, width_k) per Gaussian-constrained component and one Poisson(aux_k | theta_k factor_k) per Poisson-constrained component, each parameter paired with the auxiliary datum at its own position", expected=str([str(x) for x in want]), found=str([str(x) for x in got]))
+        except FragmentFault as e:
+            ctx.violated(rid, cmc, f"_ConstraintModel end to end [batch_size={bs}]", f"on a well-formed configuration the code indexes outside its own tensors: {e}")
         except (Undecided, KeyError, TypeError, ValueError, IndexError, AttributeError) as e:
             ctx.unrecognised(rid, cmc, f"_ConstraintModel end to end [batch_size={bs}]", f"not interpretable: {type(e).__name__}: {e}")
